@@ -8,6 +8,7 @@ fcp.serde.  The message is one big integer filled LSB-first.
 from __future__ import annotations
 
 import json
+import os
 import struct
 from typing import Any, Dict, List, Tuple
 
@@ -265,7 +266,7 @@ def vector_value(s: M.Schema, t: M.Type, raw: Any) -> Any:
     raise TypeError(t)
 
 
-def load_vectors(repo: str = "/repo") -> List[Tuple[M.Schema, str, str, Dict[str, Any], bytes, str]]:
+def load_vectors(repo: str = os.environ.get("VERIF_REPO", "/repo")) -> List[Tuple[M.Schema, str, str, Dict[str, Any], bytes, str]]:
     """-> [(schema description, schema file, datatype, value, bytes, test name)]."""
     base = f"{repo}/tests/standardized"
     suites = json.load(open(f"{base}/fcp_tests.json"))
@@ -285,7 +286,7 @@ def load_vectors(repo: str = "/repo") -> List[Tuple[M.Schema, str, str, Dict[str
     return out
 
 
-def self_test(repo: str = "/repo") -> int:
+def self_test(repo: str = os.environ.get("VERIF_REPO", "/repo")) -> int:
     """Raises AssertionError when the reference disagrees with the project's vectors."""
     vecs = load_vectors(repo)
     for sch, _f, dt, val, data, name in vecs:
